@@ -56,28 +56,17 @@ Definition Pos (s : lstateR) : Prop :=
   (forall j, (j < n)%nat -> 0 < nth j (ld s) 0) /\
   (forall i, (i < m)%nat -> 0 < nth i (le s) 0) /\ 0 < lc s.
 Definition BndDE (s : lstateR) : Prop :=
-  (forall j, (j < n)%nat -> within (eq_min S) (eq_max S) (nth j (ld s) 0)) /\
-  (forall i, (i < m)%nat -> within (eq_min S) (eq_max S) (nth i (le s) 0)).
+  (forall j, (j < n)%nat -> within (slo S) (shi S) (nth j (ld s) 0)) /\
+  (forall i, (i < m)%nat -> within (slo S) (shi S) (nth i (le s) 0)).
 
 Lemma clip_cum_bounds x cum :
-  SettingsOk S -> 0 < cum ->
-  within (eq_min S) (eq_max S) (cum * clip OpsR x (eq_min S / cum) (eq_max S / cum)).
-Proof.
-  intros [Hm Hmm] Hc.
-  assert (Hlo : eq_min S / cum <= eq_max S / cum).
-  { unfold Rdiv. apply Rmult_le_compat_r; [left; apply Rinv_0_lt_compat; exact Hc | exact Hmm]. }
-  pose proof (clip_between x _ _ Hlo) as [H1 H2].
-  set (w := clip OpsR x (eq_min S / cum) (eq_max S / cum)) in *.
-  split.
-  - replace (eq_min S) with (cum * (eq_min S / cum)) by (field; lra).
-    apply Rmult_le_compat_l; lra.
-  - replace (eq_max S) with (cum * (eq_max S / cum)) by (field; lra).
-    apply Rmult_le_compat_l; lra.
-Qed.
+  SettingsPos S -> 0 < cum ->
+  within (slo S) (shi S) (cum * clip OpsR x (eq_min S / cum) (eq_max S / cum)).
+Proof. intros HS Hc. apply clip_cum_bounds_gen; assumption. Qed.
 
-Lemma pos_step s : SettingsOk S -> Dims n m s -> Pos s ->
+Lemma pos_step s : SettingsPos S -> Dims n m s -> Pos s ->
   let s' := ruiz_step OpsR S s in
-  Pos s' /\ BndDE s' /\ (within (eq_min S) (eq_max S) (lc s') \/ lc s' = lc s).
+  Pos s' /\ BndDE s' /\ (within (slo S) (shi S) (lc s') \/ lc s' = lc s).
 Proof.
   intros HS HD (Pd & Pe & Pc). cbv zeta.
   pose proof (dwv_length S n m s HD) as Ldw. pose proof (ewv_length S n m s HD) as Lew.
@@ -85,18 +74,19 @@ Proof.
   pose proof HD as HD0.
   destruct HD as (_ & _ & _ & _ & _ & _ & _ & _ & Hd & He).
   assert (Bd : forall j, (j < n)%nat ->
-            within (eq_min S) (eq_max S) (nth j (ld (ruiz_step OpsR S s)) 0)).
+            within (slo S) (shi S) (nth j (ld (ruiz_step OpsR S s)) 0)).
   { intros j Hj. rewrite Ed, nth_hadamard by lia. rewrite (nth_dwv S n m s j HD0 Hj).
     apply increment_bounds; [exact HS | apply Pd; exact Hj]. }
   assert (Be : forall i, (i < m)%nat ->
-            within (eq_min S) (eq_max S) (nth i (le (ruiz_step OpsR S s)) 0)).
+            within (slo S) (shi S) (nth i (le (ruiz_step OpsR S s)) 0)).
   { intros i Hi. rewrite Ee, nth_hadamard by lia. rewrite (nth_ewv S n m s i HD0 Hi).
     apply increment_bounds; [exact HS | apply Pe; exact Hi]. }
-  assert (Bc : within (eq_min S) (eq_max S) (lc (ruiz_step OpsR S s)) \/
+  assert (Bc : within (slo S) (shi S) (lc (ruiz_step OpsR S s)) \/
                lc (ruiz_step OpsR S s) = lc s).
   { rewrite Ec. destruct Hct as [Hc1 | [x Hcx]]; [right; rewrite Hc1; ring | left; rewrite Hcx].
     apply clip_cum_bounds; assumption. }
   destruct HS as [Hm Hmm].
+  assert (Hlo : 0 < slo S) by (unfold slo; apply Rmin_glb_lt; assumption).
   split; [|split; [split; assumption | exact Bc]].
   repeat split.
   - intros j Hj. destruct (Bd j Hj) as [H1 _]. lra.
